@@ -895,13 +895,13 @@ rule("D6.file_metadata_len_q",
 
 rule("D6.hash_file_q",
      "c . digest . hash_file ( & mut f ) ?",
-     "( match shim_hash_file ( & c . digest , & mut f ) { Ok ( __v ) => __v , Err ( __e ) => return Err ( From :: from ( __e ) ) } )",
-     "Digest::hash_file(&mut File)? : digest world function (C13 is not decided here) + `?` written out")
+     "( match c . digest . hash_file ( & mut f ) { Ok ( __v ) => __v , Err ( __e ) => return Err ( From :: from ( __e ) ) } )",
+     "Digest::hash_file(&mut file)? with the error conversion written out (D14); the callee's contract is imported from unit digest")
 
 rule("D6.hash_patch_q",
      "c . digest . hash_patch ( & mut f ) ?",
-     "( match shim_hash_patch ( & c . digest , & mut f ) { Ok ( __v ) => __v , Err ( __e ) => return Err ( From :: from ( __e ) ) } )",
-     "Digest::hash_patch(&mut File)?")
+     "( match c . digest . hash_patch ( & mut f ) { Ok ( __v ) => __v , Err ( __e ) => return Err ( From :: from ( __e ) ) } )",
+     "Digest::hash_patch(&mut file)? with the error conversion written out (D14); the callee's contract is imported from unit digest")
 
 rule("D6.string_ne_field",
      "hash != c . hash",
@@ -1161,13 +1161,13 @@ rule("D6.file_metadata_len_q_file",
 
 rule("D6.hash_file_q_digest",
      "digest . hash_file ( & mut f ) ?",
-     "( match shim_hash_file ( & digest , & mut f ) { Ok ( __v ) => __v , Err ( __e ) => return Err ( From :: from ( __e ) ) } )",
-     "Digest::hash_file on an opened file (world function; the digest glue itself is unit digest)")
+     "( match digest . hash_file ( & mut f ) { Ok ( __v ) => __v , Err ( __e ) => return Err ( From :: from ( __e ) ) } )",
+     "Digest::hash_file(&mut file)? with the error conversion written out (D14); the callee's contract is imported from unit digest")
 
 rule("D6.hash_patch_q_digest",
      "digest . hash_patch ( & mut f ) ?",
-     "( match shim_hash_patch ( & digest , & mut f ) { Ok ( __v ) => __v , Err ( __e ) => return Err ( From :: from ( __e ) ) } )",
-     "Digest::hash_patch on an opened file (world function)")
+     "( match digest . hash_patch ( & mut f ) { Ok ( __v ) => __v , Err ( __e ) => return Err ( From :: from ( __e ) ) } )",
+     "Digest::hash_patch(&mut file)? with the error conversion written out (D14); the callee's contract is imported from unit digest")
 
 rule("D6.imap_values_collect",
      "$recv . values ( ) . collect ( )",
